@@ -128,6 +128,14 @@ def run(ctx):
         for a, b in itertools.product(range(2), repeat=2):
             g = [[(f0, [a] if f0 != "or" else [a, 1 - a])], [(f1, [b] if f1 != "or" else [b, 1 - b])]]
             cases.append((g, False))
+    # second universe: an alias/union type with a looping and a terminating member, required again later in another order
+    # (0 = root, 1 = @X = union, 2 = @T -> @X, 3 = @D terminating)
+    for xs in ([2, 3], [3, 2], [2], [1, 3]):
+        for tform in ("req", "opt", "arr", "or", "nested"):
+            for a, b in itertools.product([1, 2, 3], repeat=2):
+                for rform in ("req", "opt"):
+                    g = [[("req", [a]), (rform, [b])], [("alias", xs)], [(tform, [1] if tform != "or" else [1, 3])], [("scalar", [])]]
+                    cases.append((g, False))
     n = 2000 if quick else 40000
     for _ in range(n):
         k = rng.randint(1, 6)
@@ -209,6 +217,34 @@ def run(ctx):
                 ctx.report("UsedUserTypes = %s, the root text references %s" % (got, md["root_refs"]), "c09used:" + il, case, case=case)
         if code == "ok" and ("PANIC" in val or "FOREIGN" in val) and len(ctx.violations) < 40:
             ctx.report("Validate(Example()) on an accepted graph returns %s" % val, "c09val:" + il, case, case=case)
+    # UsedUserTypes on schemas with allOf, additionalProperties types, rule-form references and key shortcuts (the graphs of the C03 check), asked after Check
+    # and asked first: exactly the names the root text mentions, each once
+    import re
+    import check_c03 as C3
+    g3 = C3.allof_stream(rng, 100 if quick else 2000) + C3.rule_form_cases(rng, 100 if quick else 2000)
+    for _ in range(200 if quick else 4000):
+        k = rng.randint(2, 6)
+        names, env = C3.gen_types(rng, k)
+        g3.append((names, env, ("ref", [names[-1]], False), None))
+    ulines, umeta = [], []
+    for names, env, root, _ in g3:
+        for rootname in [None] + [nm for nm in names if env[nm][0] == "obj" and env[nm][3]][:2]:
+            text = C3.print_node(env, root) if rootname is None else C3.print_node(env, env[rootname])
+            want = list(dict.fromkeys(re.findall(r"@[A-Za-z0-9_]+", text)))
+            for ops in ([["check"], ["used"]], [["used"], ["check"], ["used"]], [["valex"], ["used"]]):
+                ulines.append(json.dumps({"schema": text, "types": [[nm, C3.print_node(env, env[nm])] for nm in names], "ops": ops}))
+                umeta.append((text, want, ops))
+    for (text, want, ops), o in zip(umeta, vc.impl_parallel(["schema"], ulines)):
+        r = json.loads(o)
+        ctx.evaluations += 1
+        for op, x in zip(ops, r):
+            if op[0] == "used" and x.startswith("U:"):
+                got = x[2:].split(",") if len(x) > 2 else []
+                if (sorted(got) != sorted(want) or len(set(got)) != len(got)) and len(ctx.violations) < 40:
+                    ctx.report("UsedUserTypes = %s after %s, the schema text references %s: %r" % (got, [q[0] for q in ops[:ops.index(op)]], want, text[:120]), "c09used2:" + text + json.dumps(ops),
+                               {"schema": text, "ops": ops, "result": r, "expected": want}, case={"schema": text})
+                    break
+    ctx.extra["used_types_cases"] = len(ulines)
     ctx.extra["graphs"] = len(cases)
     ctx.samples.append({"types": meta[-1]["types"], "check": json.loads(imp[-1])[0]})
     if not st["proof"] and not ctx.violations:
